@@ -392,3 +392,76 @@ Theorem iterator_closed_guards :
   | _ => False
   end.
 Proof. split; vm_compute; exact I. Qed.
+
+(* ------------------------------------------------------------------------------------------- *)
+(* 19. structure and ORDER OF EFFECTS of the durability-critical functions (calls in source order, GExpr.calls) *)
+Definition call_list (f : string) : list string := calls 400 (body f).
+
+(* Flush: after its two guards and the write loop's error check there is no other way out: it always ends by writing
+   the root record, for the versions it pinned (rnls), not for the live collections *)
+Theorem flush_always_writes_roots :
+  conds 400 (body "Store.Flush") = [GVar "s.readOnly"; GBin "==" (GVar "s.file") GNil; GBin "!=" (GVar "err") GNil] /\
+  last (body "Store.Flush") (SOther "") = SReturn [GCall "s.writeRoots" [GVar "rnls"]] /\
+  hd (SOther "") (body "Store.writeRoots") = SAssign [GVar "sJSON"; GVar "err"] ":=" [GCall "json.Marshal" [GVar "rnls"]] /\
+  before "c.rootAddRef" "coll[name].write" (call_list "Store.Flush") = true /\
+  before "coll[name].write" "s.writeRoots" (call_list "Store.Flush") = true.
+Proof. repeat split; vm_compute; reflexivity. Qed.
+
+(* every condition of writeRoots is an error check: nothing else can skip the WriteAt or the size update, and size
+   moves only after the WriteAt *)
+Theorem write_roots_order :
+  Forall (fun c => c = GBin "!=" (GVar "err") GNil) (conds 400 (body "Store.writeRoots")) /\
+  before "s.file.WriteAt" "atomic.StoreInt64" (call_list "Store.writeRoots") = true.
+Proof. split; [vm_compute; repeat constructor | vm_compute; reflexivity]. Qed.
+
+(* itemLoc.write: the before-write hook runs first, THEN the offset is taken, the header+key are written, the value is
+   written, and only then Store.size advances and the location is recorded (DiskFault.write_item_f) *)
+Theorem item_write_order :
+  let l := call_list "itemLoc.write" in
+  before "c.store.callbacks.BeforeItemWrite" "atomic.LoadInt64" l = true /\
+  before "atomic.LoadInt64" "c.store.file.WriteAt" l = true /\
+  before "c.store.file.WriteAt" "c.store.ItemValWrite" l = true /\
+  before "c.store.ItemValWrite" "atomic.StoreInt64" l = true /\
+  before "atomic.StoreInt64" "iloc.setLoc" l = true /\
+  before "iItem.NumValBytes" "c.store.file.WriteAt" l = true /\
+  before "c.store.callbacks.BeforeItemWrite" "iItem.NumValBytes" l = true.
+Proof. repeat split; vm_compute; reflexivity. Qed.
+
+(* nodeLoc.write: offset, WriteAt, then size, then the location (DiskFault.write_nodes_f) *)
+Theorem node_write_order :
+  let l := call_list "nodeLoc.write" in
+  before "o.getSize" "o.file.WriteAt" l = true /\
+  before "o.file.WriteAt" "o.setSize" l = true /\
+  before "o.setSize" "nloc.setLoc" l = true.
+Proof. repeat split; vm_compute; reflexivity. Qed.
+
+(* SetItem / Delete publish only through rootCAS after the whole rebuild, and restore the marks when it failed *)
+Theorem mutation_publish_order :
+  before "t.rootAddRef" "t.store.union" (call_list "Collection.SetItem") = true /\
+  before "t.store.union" "t.unmarkReclaimable" (call_list "Collection.SetItem") = true /\
+  before "t.store.union" "t.rootCAS" (call_list "Collection.SetItem") = true /\
+  before "t.rootAddRef" "t.store.split" (call_list "Collection.Delete") = true /\
+  before "t.store.split" "t.store.join" (call_list "Collection.Delete") = true /\
+  before "t.store.join" "t.rootCAS" (call_list "Collection.Delete") = true /\
+  count_occ string_dec (call_list "Collection.Delete") "t.unmarkReclaimable" = 2%nat /\
+  count_occ string_dec (call_list "Collection.SetItem") "t.rootCAS" = 1%nat /\
+  count_occ string_dec (call_list "Collection.Delete") "t.rootCAS" = 1%nat.
+Proof. repeat split; vm_compute; reflexivity. Qed.
+
+(* FlushRevert: the collections are replaced and the scan runs before the file is truncated; one Truncate *)
+Theorem revert_order :
+  let l := call_list "Store.FlushRevert" in
+  before "s.readRootsScan" "s.file.Truncate" l = true /\
+  count_occ string_dec l "s.file.Truncate" = 1%nat /\
+  before "atomic.AddInt64" "s.readRootsScan" l = true.
+Proof. repeat split; vm_compute; reflexivity. Qed.
+
+(* CopyTo: one SetCollection per source collection with the source's comparator, a closing Flush guarded only by
+   flushEvery > 0 *)
+Theorem copyto_structure :
+  In (GBin ">" (GVar "flushEvery") (GInt 0)) (conds 400 (body "Store.CopyTo")) /\
+  before "dstStore.SetCollection" "srcColl.VisitItemsAscendEx" (call_list "Store.CopyTo") = true /\
+  before "srcColl.VisitItemsAscendEx" "dstStore.Flush" (call_list "Store.CopyTo") = true /\
+  In (SAssign [GVar "dstColl"] ":=" [GCall "dstStore.SetCollection" [GVar "name"; GVar "srcColl.compare"]])
+     (match nth_error (body "Store.CopyTo") 4 with Some (SRange _ _ _ b) => b | _ => [] end).
+Proof. repeat split; vm_compute; auto 10. Qed.
